@@ -258,7 +258,7 @@ def main():
             "solver_queries": scalls, "solver_s": round(ssecs, 2),
             "per_obligation": per_ob, "extra_obligations": extra,
             "known_findings_reported": kf_lines, "finding_probes": probes_run,
-            "model_conformance_gate": ({k: gate.get(k) for k in ("ok", "cases", "agree", "outside_model", "n_disagree")} if gate else None),
+            "model_conformance_gate": ({k: gate.get(k) for k in ("ok", "cases", "agree", "timeouts", "outside_model", "n_disagree")} if gate else None),
             "violations": violations,
             "checker_cmd": "./check %s --tier %s" % (pid, a.tier),
             "source_analysed": {"root": repo_root, "git_head": head, "working_tree_modified": dirty,
